@@ -42,7 +42,8 @@ TRUSTED = base.TRUSTED + ["a Python set of nodes deduplicates by (hash(node.hash
                           "keeping one representative per class of equal-hash equal-structure nodes'"]
 ASSUMPTIONS = base.ASSUMPTIONS + ["'reported' is up to node equality (a set cannot hold two == nodes)"]
 
-WEIGHTS = {"N": 3, "S": 7, "D": 4, "U": 3.5, "G": 0.3, "C": 0.3, "H": 2, "F": 2.5, "E": 0.5, "M": 0.5, "L": 7, "R": 2, "W": 2}
+WEIGHTS = {"N": 3, "S": 7, "D": 4, "U": 3.5, "G": 0.3, "C": 0.3, "H": 2, "F": 2.5, "E": 0.5, "M": 0.5, "L": 7, "R": 2, "W": 2,
+           "I": 1, "T": 1, "A": 0.5, "Q": 0.5, "V": 0.8, "K": 0.5}
 
 
 def detach_scenario(rng, world):
@@ -66,12 +67,12 @@ def detach_scenario(rng, world):
 
 
 def gen(rng, tier):
-    n_cases = 1000 if tier == "quick" else 30000
+    n_cases = 820 if tier == "quick" else 30000
     cases = base.deep_cases(rng, tier)      # chains of 200 .. 1500 nested nodes (deeper in the thorough tier)
     for k in range(n_cases):
-        world = "generic" if k % 2 == 0 else "disk"
+        world = "mixed" if k % 10 == 9 else "generic" if k % 2 == 0 else "disk"
         nops = rng.randrange(5, 61)
-        c = base.gen_case(rng, world, nops, WEIGHTS, nscen=14, readall=(rng.random() < 0.2))
+        c = base.gen_case(rng, world, nops, WEIGHTS, nscen=15, readall=(rng.random() < 0.2))
         if rng.random() < 0.3:
             pre = detach_scenario(rng, world)
             sh = Shadow()
